@@ -12,13 +12,14 @@ import (
 func init() { props["C05"] = runC05 }
 
 type Bind struct {
-	A int32
-	B string
-	C *Inner
-	D []int32
-	E float64
-	F int64
-	G bool
+	A  int32
+	B  string
+	C  *Inner
+	D  []int32
+	E  float64
+	F  int64
+	G  bool
+	Hh int32
 }
 type Dummy struct{ V int32 }
 
@@ -83,12 +84,13 @@ type bindCase struct {
 // the wire value and the Go value of each of Bind's seven fields
 func bindFieldValues(r *rng) (vals map[string]*hval, want Bind) {
 	want = Bind{A: int32(r.logInt64()), B: mkString("mixed", 1+r.intn(10), -1, r), C: &Inner{int32(r.intn(100)), "c"},
-		D: []int32{1, int32(r.intn(1000)), -3}, E: float64(r.intn(10000))/16 + 0.5, F: r.logInt64(), G: r.bool()}
+		D: []int32{1, int32(r.intn(1000)), -3}, E: float64(r.intn(10000))/16 + 0.5, F: r.logInt64(), G: r.bool(), Hh: int32(r.intn(1000)) + 1}
 	vals = map[string]*hval{
 		"a": hInt32(want.A), "b": hStr(want.B),
 		"c": hObj("Inner", []string{"a", "s"}, []*hval{hInt32(want.C.A), hStr(want.C.S)}),
 		"d": {k: hList, typed: true, ty: "[int32", items: []*hval{hInt32(want.D[0]), hInt32(want.D[1]), hInt32(want.D[2])}},
 		"e": {k: hDouble, bits: math.Float64bits(want.E)}, "f": {k: hLong, z: want.F}, "g": {k: hBool, b: want.G},
+		"hh": hInt32(want.Hh),
 	}
 	return
 }
@@ -122,7 +124,11 @@ func c05Run(c *ctx, order []string, extras int, pos int, capital bool, seed uint
 	}
 	for i := 0; i < extras; i++ {
 		at := r.intn(len(names) + 1)
-		names = append(names[:at], append([]string{fmt.Sprint("zz", i)}, names[at:]...)...)
+		un := fmt.Sprint("zz", i)
+		if i == 0 && seed%3 == 1 {
+			un = "hH" // differs from the Go field Hh only in the case of a letter after the first: still unknown
+		}
+		names = append(names[:at], append([]string{un}, names[at:]...)...)
 		wvals = append(wvals[:at], append([]*hval{unknownValue(r, 0)}, wvals[at:]...)...)
 	}
 	if capital {
@@ -149,6 +155,8 @@ func c05Run(c *ctx, order []string, extras int, pos int, capital bool, seed uint
 			want.F = full.F
 		case "g":
 			want.G = full.G
+		case "hh":
+			want.Hh = full.Hh
 		}
 	}
 	target := hObj("Bind", names, wvals)
@@ -242,7 +250,7 @@ func runC05(c *ctx) {
 		return
 	}
 	c.rule = "class definitions derived from a 7-field Go struct (int32, string, *struct, []int32, float64, int64, bool) by: ALL 120 permutations of every 5-field subset sample, random permutations of 6-7 fields, dropping fields, adding 0..3 unknown fields (each carrying a value of any kind incl. nested objects, lists, maps), upper/lower-case first letters; at every position 0..40 of the class in the stream's definition table (preceded by that many other classes with instances); two instances per definition; rendered by the certified reference encoder with random form choices; oracle: by-name expectation per field. Distinct by (order, extras, position, case, seed); all non-trivial."
-	fields := []string{"a", "b", "c", "d", "e", "f", "g"}
+	fields := []string{"a", "b", "c", "d", "e", "f", "g", "hh"}
 	c05Shared = hessian.NewDecoder(nil, map[string]reflect.Type{})
 	cnt := 0
 	run := func(order []string, extras, pos int, capital bool, label string) {
@@ -278,6 +286,11 @@ func runC05(c *ctx) {
 			run(p, r.intn(4), pos, r.bool(), "pos")
 		}
 	}
+	c05UnregisteredProbe(c)
+	// far beyond the one-octet instance tags and the one-octet index forms: definitions #255..#300
+	for _, pos := range []int{255, 256, 257, 300} {
+		run(append([]string{}, fields...), 1, pos, false, "far")
+	}
 	n := 300
 	if c.tier == "thorough" {
 		n = 20000
@@ -290,5 +303,33 @@ func runC05(c *ctx) {
 		}
 		p = p[:r.intn(len(p)+1)]
 		run(p, r.intn(4), r.intn(41), r.bool(), "random")
+	}
+}
+
+// an unknown wire field whose VALUE is of a type the receiver has not registered either (an object
+// of an unknown class, a typed map or typed list with an unknown type name): it has no Go
+// counterpart and must be skipped like any other unknown field (open finding C05-F1)
+func c05UnregisteredProbe(c *ctx) {
+	tm := map[string]reflect.Type{"Bind": reflect.TypeOf(Bind{}), "Inner": reflect.TypeOf(Inner{}), "[int32": reflect.TypeOf([]int32{})}
+	unknowns := map[string]*hval{
+		"object of an unknown class":    hObj("com.peer.Newer", []string{"x"}, []*hval{hInt32(1)}),
+		"typed map of an unknown type":  {k: hMap, typed: true, ty: "java.util.TreeMap", items: []*hval{hStr("k"), hInt32(5)}},
+		"typed list of an unknown type": {k: hList, typed: true, ty: "[com.peer.Newer", items: []*hval{hInt32(1)}},
+	}
+	for name, u := range unknowns {
+		msg := hObj("Bind", []string{"a", "zz0", "hh"}, []*hval{hInt32(7), u, hInt32(9)})
+		in := map[string]interface{}{"op": "unregistered-unknown-field", "value": name}
+		c.eval("unregistered:" + name)
+		bs, _, _, err := renderChecked(msg, zeroChooser{})
+		if err != nil {
+			c.fail("harness: renderer failed", in, err.Error(), "harness")
+			continue
+		}
+		var dec interface{}
+		o, m := guard(func() error { var e error; dec, e = hessian.ToObject(bs, tm); return e })
+		got, ok := dec.(*Bind)
+		if o != oOK || !ok || got.A != 7 || got.Hh != 9 {
+			c.fail("an unknown field whose value has an unregistered type is not skipped", in, fmt.Sprint(o, " ", m), "C05-F1-unknown-field-of-unregistered-type-is-not-skipped")
+		}
 	}
 }
